@@ -29,7 +29,7 @@ func init() {
 			"requires the verif-tagged fid-table hook",
 		},
 		Shards:   shards(8, 16),
-		Timeout:  timeouts(5*time.Minute, 30*time.Minute),
+		Timeout:  timeouts(12*time.Minute, 90*time.Minute),
 		MinEvals: 1000,
 		Required: []string{"walk:complete/normalised", "walk:complete/plain", "walk:partial", "walk:failed", "walk:rejected-locally", "op:create-ok", "op:clunk", "op:remove", "op:opendir-iterated", "final_table_checks", "table_comparisons"},
 		Run:      runC20,
